@@ -953,4 +953,3 @@ func probeAllocBound() {
 	_, _ = c.Get(1 << 62)
 	allocBounded = true
 }
-
